@@ -375,6 +375,9 @@ func ruleC10Assert(c *Ctx) {
 			for _, b := range fn.Blocks {
 				for _, in := range b.Instrs {
 					for _, op := range in.Operands(nil) {
+						if _, isConv := (*op).(*ssa.ChangeType); *op != nil && isConv {
+							continue // the converted value is counted where the conversion reads the thunk
+						}
 						if *op != nil && isThunkOf(*op, thunk) {
 							if call, isCall := in.(ssa.CallInstruction); isCall && call.Common().Value == *op {
 								continue // a plain static call, handled as an ordinary caller
@@ -989,6 +992,63 @@ func eliminationDischarge(fi *FactInfo, b *ssa.BasicBlock, ta *ssa.TypeAssert) (
 				return
 			}
 			ok = false
+		case *ssa.UnOp:
+			// the slice travels in a field of a local struct (a parameter object between two phases): every
+			// value ever stored into that field, through whichever copy of the struct
+			if fa, isFA := x.X.(*ssa.FieldAddr); isFA && x.Op == token.MUL {
+				if al, isAl := fa.X.(*ssa.Alloc); isAl {
+					srcs, okS := structFieldSources(al, fa.Field, 0, map[*ssa.Alloc]bool{})
+					if !okS {
+						ok = false
+						return
+					}
+					for _, sv := range srcs {
+						walk(sv)
+					}
+					return
+				}
+			}
+			ok = false
+		case *ssa.Field:
+			// the struct value: loaded whole from local structs (through joins)
+			var allocs []*ssa.Alloc
+			good := true
+			var origins func(sv ssa.Value, d int)
+			origins = func(sv ssa.Value, d int) {
+				if d > 5 {
+					good = false
+					return
+				}
+				switch y := sv.(type) {
+				case *ssa.UnOp:
+					if al, isAl := y.X.(*ssa.Alloc); isAl && y.Op == token.MUL {
+						allocs = append(allocs, al)
+						return
+					}
+					good = false
+				case *ssa.Phi:
+					for _, e := range y.Edges {
+						origins(e, d+1)
+					}
+				default:
+					good = false
+				}
+			}
+			origins(x.X, 0)
+			if !good || len(allocs) == 0 {
+				ok = false
+				return
+			}
+			for _, al := range allocs {
+				srcs, okS := structFieldSources(al, x.Field, 0, map[*ssa.Alloc]bool{})
+				if !okS {
+					ok = false
+					return
+				}
+				for _, sv := range srcs {
+					walk(sv)
+				}
+			}
 		default:
 			ok = false
 		}
@@ -1245,15 +1305,15 @@ func ruleC10LexErr(c *Ctx) {
 			arg = mi.X
 		}
 		isRecorder := false
-		if prm, isPrm := arg.(*ssa.Parameter); isPrm {
-			if n := namedOf(prm.Type()); n != nil && n.Obj().Name() == "ErrorListener" {
+		if handedIn(fn, arg) {
+			if n := namedOf(arg.Type()); n != nil && n.Obj().Name() == "ErrorListener" {
 				isRecorder = true
 			}
 		}
 		if pt, isP := arg.Type().(*types.Pointer); isP && namedOf(pt.Elem()) == recorderT {
 			isRecorder = true
 		}
-		if isRecorder && arg != el {
+		if isRecorder && !sameHandedIn(arg, el) {
 			el = arg
 			nEl++
 		}
@@ -1302,7 +1362,7 @@ func ruleC10LexErr(c *Ctx) {
 			if mi, ok := arg.(*ssa.MakeInterface); ok {
 				arg = mi.X
 			}
-			return arg == el && rootNamed(recv) == want.t
+			return sameHandedIn(arg, el) && rootNamed(recv) == want.t
 		}
 		ri := reachWithout(fn, isAdd)
 		c.Check(!ri.Reaches(start), "C10.LEXERR", name+": "+want.what+" reports to the caller's listener", p.Pos(start.Pos()),
@@ -1692,6 +1752,12 @@ func ruleC10NilBucket(c *Ctx) {
 
 // isThunkOf: v is fn used as a function value — fn itself or the builder's thunk for the method expression.
 func isThunkOf(v ssa.Value, fn *ssa.Function) bool {
+	// (a table whose element type is a named function type holds converted values)
+	for i := 0; i < 2; i++ {
+		if ct, isCT := v.(*ssa.ChangeType); isCT {
+			v = ct.X
+		}
+	}
 	f, ok := v.(*ssa.Function)
 	if !ok {
 		return false
@@ -2109,4 +2175,101 @@ func possibleDynTypes(v ssa.Value, depth int) ([]types.Type, bool) {
 		return out, true
 	}
 	return nil, false
+}
+
+// structFieldSources: every value that is ever stored into field f of the local struct al — directly, or by a
+// whole-struct copy from another local struct (then that struct's sources).  ok is false when the struct
+// escapes or is written from something that is not a local struct.
+func structFieldSources(al *ssa.Alloc, f int, depth int, seen map[*ssa.Alloc]bool) ([]ssa.Value, bool) {
+	if depth > 6 || al.Referrers() == nil {
+		return nil, false
+	}
+	if seen[al] {
+		return nil, true
+	}
+	seen[al] = true
+	if _, isStruct := derefType(al.Type()).Underlying().(*types.Struct); !isStruct {
+		return nil, false
+	}
+	var out []ssa.Value
+	for _, r := range *al.Referrers() {
+		switch x := r.(type) {
+		case *ssa.DebugRef:
+		case *ssa.FieldAddr:
+			for _, fr := range *x.Referrers() {
+				switch y := fr.(type) {
+				case *ssa.Store:
+					if y.Addr != ssa.Value(x) {
+						return nil, false
+					}
+					if x.Field == f {
+						out = append(out, y.Val)
+					}
+				case *ssa.UnOp, *ssa.DebugRef:
+				default:
+					return nil, false
+				}
+			}
+		case *ssa.Store:
+			if x.Addr != ssa.Value(al) {
+				return nil, false
+			}
+			// a whole copy: from another local struct (or, through a join, from several)
+			var srcs []*ssa.Alloc
+			good := true
+			var origins func(v ssa.Value, d int)
+			origins = func(v ssa.Value, d int) {
+				if d > 5 {
+					good = false
+					return
+				}
+				switch y := v.(type) {
+				case *ssa.UnOp:
+					if src, isAl := y.X.(*ssa.Alloc); isAl && y.Op == token.MUL {
+						srcs = append(srcs, src)
+						return
+					}
+					good = false
+				case *ssa.Phi:
+					for _, e := range y.Edges {
+						origins(e, d+1)
+					}
+				default:
+					good = false
+				}
+			}
+			origins(x.Val, 0)
+			if !good {
+				return nil, false
+			}
+			for _, src := range srcs {
+				more, ok := structFieldSources(src, f, depth+1, seen)
+				if !ok {
+					return nil, false
+				}
+				out = append(out, more...)
+			}
+		case *ssa.UnOp:
+		default:
+			return nil, false
+		}
+	}
+	return out, true
+}
+
+// sameHandedIn: a and b are the same value, or two reads of the same field of the same parameter object.
+func sameHandedIn(a, b ssa.Value) bool {
+	if a == nil || b == nil {
+		return false
+	}
+	if a == b {
+		return true
+	}
+	fa, ba := loadedField(a)
+	fb, bb := loadedField(b)
+	if fa != nil && sameVar(fa, fb) && ba == bb {
+		_, isPrm := ba.(*ssa.Parameter)
+		return isPrm
+	}
+	return false
 }
